@@ -31,7 +31,7 @@ ASSUMPTIONS = [
     "combined return: must contain the union of returned flags and may additionally contain SUCCESS when some handler returned non-zero",
     "in population 'prod' event kinds whose DEFAULT handlers are registered for every language are not notified with probe data (they would run lian code on it); they are covered by population 'bare' and by the in-vivo monitor of C15",
 ]
-PROBES = ["invivo_notifications", "invivo_handlers_invoked", "invivo_multi_handler_notifications", "unprocessed_set_out", "lang_filtered", "any_lang_match", "blocked", "data_chained", "unprocessed_kept_data", "unknown_event", "handler_bound_method", "handler_partial", "handler_callable_object", "rich_data", "global_debug_flag", "registered_by_declared_name", "registered_for_unsupported_declared_kind", "raised_by_declared_name",
+PROBES = ["invivo_notifications", "invivo_handlers_invoked", "invivo_multi_handler_notifications", "unprocessed_set_out", "lang_filtered", "any_lang_match", "blocked", "data_chained", "unprocessed_kept_data", "unknown_event", "handler_bound_method", "handler_partial", "handler_callable_object", "handler_owner_referenced_by_registration_only", "options_carry_language_list", "rich_data", "global_debug_flag", "registered_by_declared_name", "registered_for_unsupported_declared_kind", "raised_by_declared_name",
           "flags_multi", "str_lang", "set_lang", "substring_lang", "register_list", "plugin_loaded", "prod_default_table",
           "no_handler_matched", "listed_handlers", "debug_mode", "reentrant_notify", "registered_during_dispatch", "eventdata_reused", "same_handler_twice", "shared_lang_list"]
 # the same check again, smaller, in interpreters started with assertions stripped (python -O / PYTHONOPTIMIZE=1)
@@ -119,6 +119,8 @@ def gen_knobs(rng, tier):
         "exotic_handlers": rng.random() < 0.3,
         "rich_data": rng.random() < 0.3,
         "debug_flag": rng.random() < 0.5,
+        # what else the production options object carries: the -l language list (list or comma string), and other attributes
+        "options_lang": rng.choice([None, None, ["python"], "python,javascript", [], ["java", "go"]]),
         "named_events": rng.random() < 0.12,
         "name_sweep": rng.random() < 0.012,
     }
@@ -311,6 +313,11 @@ def execute(trace):
 
     _SHARED.clear()
     options = SimpleNamespace(event_handlers=[], debug=bool(k.get("debug")))
+    if k.get("options_lang") is not None:
+        options.lang = k["options_lang"]
+        options.quiet = True
+        options.workspace = "lian_workspace"
+        hit("options_carry_language_list")
     invoked = []          # (hid, in_data seen) for the current notify
     script = {"returns": {}, "sets_out": {}, "n": 0}
     handlers = {}
@@ -417,6 +424,22 @@ def execute(trace):
             all_h.update(i["h"] for i in op["items"])
     for h in all_h:
         handlers[h] = make_handler(h)
+    if k.get("exotic_handlers"):
+        # some handlers are bound methods of objects that NOBODY but the registration refers to (em.register(ev, Collector().handle)):
+        # the manager has to keep them alive
+        class _Handlers(dict):
+            def __getitem__(self, h_):
+                body = dict.__getitem__(self, h_)
+                if h_ % 3 == 2 and h_ not in owners and callable(body):
+                    class Ephemeral:
+                        def handle(self, data):
+                            return body(data)
+                    hit("handler_owner_referenced_by_registration_only")
+                    return Ephemeral().handle
+                return body
+        handlers = _Handlers(handlers)
+        import gc
+        gc.collect()
 
     # ---- resolve symbolic events to real kinds
     kinds = _EVENT_KINDS
